@@ -2,13 +2,16 @@
 //
 //	go run ./c17/inventory/cmd/c17inv -repo /repo                     # key, line
 //	go run ./c17/inventory/cmd/c17inv -repo /repo -baseline FILE      # key, status (NEW for unknown sites)
-//	go run ./c17/inventory/cmd/c17inv -repo /repo -baseline FILE -merge   # rewrite: keep statuses, add new sites as "uncovered", drop stale
+//	go run ./c17/inventory/cmd/c17inv -repo /repo -baseline FILE -merge   # rewrite: keep statuses and recorded guards, add new sites as "uncovered", drop stale
+//	… -merge -accept-guards   # also record the CURRENT guard fingerprint of every reviewed site (after re-reading the sites listed as GUARD-CHANGED)
+//	go run ./c17/inventory/cmd/c17inv -repo /repo -guards                 # key, guard fingerprint
 package main
 
 import (
 	"flag"
 	"fmt"
 	"os"
+	"strings"
 
 	"verifharness/c17/inventory"
 )
@@ -17,15 +20,17 @@ func main() {
 	repo := flag.String("repo", "/repo", "elvish tree")
 	base := flag.String("baseline", "", "baseline file")
 	merge := flag.Bool("merge", false, "print a merged baseline")
+	accept := flag.Bool("accept-guards", false, "with -merge: record the current guards of reviewed sites")
+	guards := flag.Bool("guards", false, "print the guard fingerprint of every site")
 	flag.Parse()
 	sites, err := inventory.Scan(*repo)
 	if err != nil {
 		fmt.Fprintln(os.Stderr, err)
 		os.Exit(1)
 	}
-	var bl map[string]string
+	var bl map[string]inventory.Entry
 	if *base != "" {
-		bl, _, err = inventory.ReadBaseline(*base)
+		bl, _, err = inventory.ReadBaselineFull(*base)
 		if err != nil {
 			fmt.Fprintln(os.Stderr, err)
 			os.Exit(1)
@@ -33,18 +38,29 @@ func main() {
 	}
 	for _, s := range sites {
 		switch {
+		case *guards:
+			fmt.Printf("%s\tg=%s\t%s\n", s.Key(), s.GuardHash(), s.GuardText())
 		case bl == nil:
 			fmt.Printf("%s\t%s:%d\n", s.Key(), s.File, s.Line)
 		case *merge:
-			st, ok := bl[s.Key()]
-			if !ok {
-				st = "uncovered"
+			e, ok := bl[s.Key()]
+			switch {
+			case !ok:
+				fmt.Printf("%s\tuncovered\n", s.Key())
+			case !inventory.NeedsGuards(e.Status):
+				fmt.Printf("%s\t%s\n", s.Key(), e.Status)
+			case *accept || e.GuardHash == "" && e.GuardText == "":
+				fmt.Println(inventory.FormatEntry(s, e.Status))
+			default: // keep what the review recorded
+				fmt.Printf("%s\t%s\tg=%s\t%s\n", s.Key(), e.Status, e.GuardHash, e.GuardText)
 			}
-			fmt.Printf("%s\t%s\n", s.Key(), st)
 		default:
-			st, ok := bl[s.Key()]
+			e, ok := bl[s.Key()]
+			st := e.Status
 			if !ok {
 				st = "NEW"
+			} else if g := inventory.GuardStatus(s, e); g != "" {
+				st = strings.ToUpper(g) + " (" + e.Status + "; " + inventory.GuardDiff(s, e) + ")"
 			}
 			fmt.Printf("%s\t%s\t%s:%d\n", s.Key(), st, s.File, s.Line)
 		}
